@@ -1,1 +1,148 @@
-fn main(){}
+//! vprobe: the same program built in every configuration of the lattice (C03, C20). It runs every
+//! dispatching algorithm (ChaCha wide + narrow through the 7 cipher types, BLAKE-224/256/384/512
+//! compress + finalize, JH f8) on a fixed input set, compares every output with the reference
+//! models and prints one JSON line: {"cases", "fingerprint", "mismatches", "panics", ...}.
+use cipher::generic_array::GenericArray;
+use cipher::{NewCipher, StreamCipher, StreamCipherSeek};
+use digest::Digest;
+use vref::chacha::{Layout, Stream};
+
+fn fnv_update(h: &mut u64, data: &[u8]) {
+    for b in data {
+        *h ^= *b as u64;
+        *h = h.wrapping_mul(0x100000001b3);
+    }
+}
+
+struct Out {
+    cases: u64,
+    fp: u64,
+    mism: Vec<String>,
+    panics: Vec<String>,
+}
+
+fn guarded<R>(f: impl FnOnce() -> R) -> Result<R, String> {
+    std::panic::catch_unwind(std::panic::AssertUnwindSafe(f)).map_err(|e| {
+        if let Some(s) = e.downcast_ref::<&str>() { s.to_string() } else if let Some(s) = e.downcast_ref::<String>() { s.clone() } else { "panic".into() }
+    })
+}
+
+fn key_pattern(i: usize) -> [u8; 32] {
+    let mut k = [0u8; 32];
+    for (j, b) in k.iter_mut().enumerate() {
+        *b = (0x31 + 7 * j + 13 * i) as u8 ^ ((j * j) as u8);
+    }
+    k
+}
+fn nonce_pattern(i: usize, len: usize) -> Vec<u8> {
+    (0..len).map(|j| (0xa5 + 11 * j + 29 * i) as u8 ^ ((j * 3) as u8)).collect()
+}
+
+macro_rules! chacha {
+    ($o:expr, $ty:ty, $name:expr, $layout:expr, $dr:expr, $nl:expr, $long:expr) => {{
+        let mut pos: Vec<u64> = vec![0, 1, 63, 64, 65, 255, 256, 257, (1 << 32) - 1, 1 << 32, (1 << 38) - 1031, (1 << 38) - 65, (1 << 38) - 64];
+        if $layout != Layout::Ietf {
+            pos.extend_from_slice(&[1 << 38, (1 << 38) + 1, (1 << 40) + 7, 1 << 63, u64::MAX - 1031, u64::MAX - 64]);
+        }
+        let lens: Vec<usize> = if $long { vec![1, 63, 64, 65, 127, 128, 129, 255, 256, 257, 320, 511, 512, 513, 1031] } else { vec![1, 63, 64, 65, 255, 256, 257, 320, 1031] };
+        for ki in 0..2 {
+            for ni in 0..2 {
+                let key = key_pattern(ki);
+                let nonce = nonce_pattern(ni, $nl);
+                let s = Stream::new($layout, $dr, &key, &nonce);
+                for &p in &pos {
+                    for &l in &lens {
+                        if p as u128 + l as u128 > s.limit() {
+                            continue;
+                        }
+                        $o.cases += 1;
+                        let r = guarded(|| {
+                            let mut c = <$ty as NewCipher>::new(GenericArray::from_slice(&key), GenericArray::from_slice(&nonce));
+                            c.seek(p);
+                            let mut b = vec![0u8; l];
+                            c.apply_keystream(&mut b);
+                            b
+                        });
+                        match r {
+                            Err(e) => $o.panics.push(format!("{} pos={} len={}: {}", $name, p, l, e)),
+                            Ok(b) => {
+                                fnv_update(&mut $o.fp, &b);
+                                if b != s.bytes(p as u128, l) {
+                                    $o.mism.push(format!("{} pos={} len={}", $name, p, l));
+                                }
+                            }
+                        }
+                    }
+                }
+            }
+        }
+    }};
+}
+
+macro_rules! hash {
+    ($o:expr, $ty:ty, $name:expr, $block:expr, $refe:expr, $long:expr) => {{
+        let maxlen = if $long { 6 * $block + 2 } else { 3 * $block + 2 };
+        let mut msgs: Vec<Vec<u8>> = (0..=maxlen).map(|n| (0..n).map(|i| (i as u8).wrapping_add((i >> 8) as u8)).collect()).collect();
+        for b in 0..8 * $block {
+            let mut m = vec![0u8; $block];
+            m[b / 8] = 0x80 >> (b % 8);
+            msgs.push(m);
+        }
+        for m in &msgs {
+            $o.cases += 1;
+            match guarded(|| <$ty>::digest(m).to_vec()) {
+                Err(e) => $o.panics.push(format!("{} len={}: {}", $name, m.len(), e)),
+                Ok(d) => {
+                    fnv_update(&mut $o.fp, &d);
+                    let f: &dyn Fn(&[u8]) -> Vec<u8> = &$refe;
+                    if d != f(m) {
+                        $o.mism.push(format!("{} len={}", $name, m.len()));
+                    }
+                }
+            }
+        }
+    }};
+}
+
+fn main() {
+    let args: Vec<String> = std::env::args().collect();
+    std::panic::set_hook(Box::new(|_| {}));
+    let mut forced = 0u8;
+    if let Some(i) = args.iter().position(|a| a == "--force") {
+        forced = args[i + 1].parse().unwrap();
+    }
+    let long = args.iter().any(|a| a == "--long");
+    #[cfg(all(cryptocorrosion_verif, not(feature = "ppv_no_simd"), not(feature = "chacha_no_simd")))]
+    ppv_lite86::x86_64::verif::force_backend(forced);
+    #[cfg(not(all(cryptocorrosion_verif, not(feature = "ppv_no_simd"), not(feature = "chacha_no_simd"))))]
+    if forced != 0 {
+        eprintln!("this configuration cannot force a backend");
+        std::process::exit(2);
+    }
+    let mut o = Out { cases: 0, fp: 0xcbf29ce484222325, mism: vec![], panics: vec![] };
+    chacha!(o, c2_chacha::Ietf, "Ietf", Layout::Ietf, 10, 12, long);
+    chacha!(o, c2_chacha::ChaCha8, "ChaCha8", Layout::Djb, 4, 8, long);
+    chacha!(o, c2_chacha::ChaCha12, "ChaCha12", Layout::Djb, 6, 8, long);
+    chacha!(o, c2_chacha::ChaCha20, "ChaCha20", Layout::Djb, 10, 8, long);
+    chacha!(o, c2_chacha::XChaCha8, "XChaCha8", Layout::X, 4, 24, long);
+    chacha!(o, c2_chacha::XChaCha12, "XChaCha12", Layout::X, 6, 24, long);
+    chacha!(o, c2_chacha::XChaCha20, "XChaCha20", Layout::X, 10, 24, long);
+    hash!(o, blake_hash::Blake224, "Blake224", 64, |m| vref::blake::blake(224, m), long);
+    hash!(o, blake_hash::Blake256, "Blake256", 64, |m| vref::blake::blake(256, m), long);
+    hash!(o, blake_hash::Blake384, "Blake384", 128, |m| vref::blake::blake(384, m), long);
+    hash!(o, blake_hash::Blake512, "Blake512", 128, |m| vref::blake::blake(512, m), long);
+    let jt = vref::jh::Tables::new();
+    hash!(o, jh_x86_64::Jh224, "Jh224", 64, |m| vref::jh::jh(&jt, 224, m), long);
+    hash!(o, jh_x86_64::Jh256, "Jh256", 64, |m| vref::jh::jh(&jt, 256, m), long);
+    hash!(o, jh_x86_64::Jh384, "Jh384", 64, |m| vref::jh::jh(&jt, 384, m), long);
+    hash!(o, jh_x86_64::Jh512, "Jh512", 64, |m| vref::jh::jh(&jt, 512, m), long);
+    #[cfg(all(cryptocorrosion_verif, not(feature = "ppv_no_simd"), not(feature = "chacha_no_simd")))]
+    let taken: Vec<usize> = ppv_lite86::x86_64::verif::taken_counts().to_vec();
+    #[cfg(not(all(cryptocorrosion_verif, not(feature = "ppv_no_simd"), not(feature = "chacha_no_simd"))))]
+    let taken: Vec<usize> = vec![];
+    let q = |v: &Vec<String>| format!("[{}]", v.iter().take(12).map(|s| format!("\"{}\"", s.replace('"', "'").replace('\\', "/"))).collect::<Vec<_>>().join(","));
+    println!(
+        "{{\"cases\":{},\"fingerprint\":\"{:016x}\",\"n_mismatches\":{},\"n_panics\":{},\"mismatches\":{},\"panics\":{},\"forced\":{},\"taken\":{:?}}}",
+        o.cases, o.fp, o.mism.len(), o.panics.len(), q(&o.mism), q(&o.panics), forced, taken
+    );
+}
